@@ -24,6 +24,30 @@ CHECKS = {
    technique="stateless model checking of the implementation: deviation-bounded exhaustive enumeration of thread interleavings under a controlled scheduler with virtual time",
    text="For every dependency graph on <= 3 modules, with no fault or exactly one prep/start/stop callback returning an error or panicking, and with module management for every initial enabled set and one further round with every other set (673 closed drivers; history Start [-> ManageModules] -> Shutdown), every schedule of the source-instrumented modules package with at most 2 (3 modules: 1) deviations from the default scheduler is executed from a freshly reset world. Checked in the callbacks and at every return: start only after all dependencies finished starting successfully and are not stopping; stop only after every started dependent completely stopped and is offline; prep once, before any start, after the dependencies' prep; Start/ManageModules == nil implies exactly the wanted set is online; when Shutdown returns (and again once idle) no module is online and stops == successful starts per module; no deadlock, no uncontained panic.",
    note="Trusted: the scheduler's model of Go synchronisation (shim/, selftests), sequential consistency, data-race freedom outside instrumented operations. Operations inside package log are switch points only when they block; map iteration over the module registry is in ascending name order. Graphs with more than 3 modules, more than one fault, and more than two management rounds are not covered."),
+ "C08": dict(engine='Q', category='model_checking', design_ref='DESIGN.md §3, §6 C08',
+   technique='bounded-exhaustive enumeration of inputs / operation histories on the real code against a reference model (explicit-state, no sampling)',
+   text='Every record of an enumerated domain (9,604 / 114,244 metadata tuples over int64 boundary values and both flags x 8-13 payloads x 13 format ids, all 256 format ids on a sub-grid, x 41 typed values of the harness schema) is serialised by the real MarshalRecord, parsed by NewRawWrapper and unwrapped; key, the six metadata fields, format and bytes are compared, deleted records must carry no data, each parsed record is serialised a second time. NewRawWrapper is run on every byte string of length <= 3, every short meta section in every format byte, every boundary block length, and every truncation, substitution, length-field replacement, insertion and deletion of 50 / 160 valid encodings: it must never panic, never return data outside the input, never depend on memory behind the input and never return a record for an over-long block length.',
+   note='Bounded: metadata values come from a boundary set, payloads <= 300 bytes, one typed schema. The key is supplied by the caller and is not part of the stored form. The format byte of deleted records is omitted by design and not compared. Third-party decoders are exercised only with short bodies and corruptions of valid metas.'),
+ "C09": dict(engine='Q', category='model_checking', design_ref='DESIGN.md §3, §6 C09',
+   technique='bounded-exhaustive enumeration of inputs / operation histories on the real code against a reference model (explicit-state, no sampling)',
+   text="Bounded-exhaustive on the real dsd code: every schema value with <= 2 (thorough <= 3) fields set x 7 formats x plain/indent/GZIP/AUTO-compressed dump -> Load/DecompressAndLoad returns an equal value and the dumped format (AUTO = default); the same through the HTTP request and response helpers; for every Accept string of <= 2 (<= 3) media-range elements that names a registered type or a wildcard the response is served, Content-Type names an encoding the body decodes in, and the peer's load returns the value; Load/MimeLoad/DecompressAndLoad on all byte strings <= 3 (thorough: all 4-byte strings with a known id), truncations/substitutions of valid dumps and claimed-size headers (in a child process under an address-space limit) return a value or an error without panic or process kill.",
+   note="Equality treats nil and empty slices/maps as the same value. The codec libraries are trusted as the reference for 'the body is in encoding X'. Not asserted: which type is chosen for an Accept header; lenient header spellings; integers beyond +-2^53. AUTO, RAW and GenCode may be refused by the HTTP dump functions (no media type). String alphabet is 8 values. No concurrency."),
+ "C11": dict(engine='Q', category='model_checking', design_ref='DESIGN.md §3, §6 C11',
+   technique='bounded-exhaustive enumeration of inputs / operation histories on the real code against a reference model (explicit-state, no sampling)',
+   text='Bounded-exhaustive: every API-built query within the stated shape (all trees of depth <= 2, arity <= 3; thorough depth 3), leaf (294 leaves over all 18 operators and operand classes) and token bounds (all strings of <= 3 symbols over a special-character alphabet in every token slot) that passes Check prints to a text ParseQuery accepts, that re-prints identically, matches the same derived witness records and keeps key/prefix/value tokens exact; every enumerated parser input (all strings of <= 4 tokens over 19 tokens, <= 4 characters over 12 characters, <= 7 condition units) yields a checked query or an error without panic or hang, and every input the README-grammar recogniser accepts is accepted with exact tokens.',
+   note="Trusted: the conservative hand-written README recogniser and the flat witness records behind the Accessor interface. Not covered: invalid UTF-8 tokens, trees beyond the bounds, rejection of malformed input. Eight known-finding signatures (three root causes: empty groups, short or comma-containing 'in' lists, keys that are control words or parentheses have no text form) are listed in known_findings.json."),
+ "C12": dict(engine='Q', category='model_checking', design_ref='DESIGN.md §3, §6 C12',
+   technique='bounded-exhaustive enumeration of inputs / operation histories on the real code against a reference model (explicit-state, no sampling)',
+   text='For every requirement pair (81 wrapped handlers over {NotFound, Dynamic, NotSupported, Anyone, User, Admin, Self, 5, -3}^2 plus 180 endpoints), 16 methods, 74 (thorough 142) credential sources and states, 26 origins x 2 hosts, dev mode and the database bridge, and for every history up to depth 5 (thorough 6) of key configuration, session creation, use, expiry, reset and cleaning (BFS with state de-duplication), the real mainHandler.ServeHTTP ran a handler only when the reference decision table permitted it, showed it exactly the granted token, answered refusals with 401/403/404/405/500, refused mismatching Origins before the authenticator or handler ran, and never panicked or hung; header strings of <= 2 (3) tokens over 10-token alphabets for Authorization, Cookie and Origin.',
+   note='Sequential only. Time is simulated by back-dating stored expiries through an overlay function (boundaries at +-1 min). The asynchronous config-change delivery is detached and updateAPIKeys is called directly. Multi-credential precedence, debatable header spellings and preflight status are not asserted. Module-readiness 503 and the listening socket are not covered.'),
+ "C18": dict(engine='Q+K', category='model_checking', design_ref='DESIGN.md §3, §4, §6 C18',
+   technique='bounded-exhaustive enumeration of inputs / operation histories on the real code against a reference model (explicit-state, no sampling); strace system-call audit of the same cases for reads',
+   text='For every name built from <= 4 (thorough <= 5) segments over {a, .., ., empty, <root>-other, <root>} with relative, /, absolute-root and absolute-parent prefixes (6,216 / 37,320 names per root), against roots at depth 1-3 in a sandbox with sentinel files at every level: none of the fstree Put/Get/Delete/Query, DirStructure Ensure*, UnpackArchive (name as zip entry), ScanStorage and API-bridge operations changes, hands back, or (under strace -e trace=%file with marker calls, every path resolved through the dirfd annotations) even touches anything outside its root; and every lexically escaping name returns an error.',
+   note="Containment is decided lexically; there are no symlinks in the sandbox. The strace read audit covers <= 2-segment names in quick and <= 3 in thorough. renameio's use of os.TempDir() is allowed (TMPDIR is redirected into the sandbox). The check refuses to run if the absolute probe paths (/a, /rt, ...) already exist."),
+ "C19": dict(engine='Q', category='model_checking', design_ref='DESIGN.md §3, §6 C19',
+   technique='bounded-exhaustive enumeration of inputs / operation histories on the real code against a reference model (explicit-state, no sampling)',
+   text='For every set of <= 4 (thorough <= 5) versions from a stable/pre-release/dev alphabet with every available/current/pre-release/blacklisted vector and all 24 registry settings, selectVersion picks exactly the version the documented order prescribes, and a blacklisted one only as last resort. For every history to depth 3 (thorough 4) of AddVersion/Blacklist/GetFile/selectVersion/Purge(keep)/flag toggles from 8 pools on a real storage directory (BFS, de-duplicated on settings, ordered version list with flags, selected, active, files): Blacklist refuses the last non-blacklisted version; GetFile hands out the selected version; after Purge the files of the active, selected and newest stable version and of >= keep further versions exist and no version is listed available without its file. All 1.6M (3.8M) identifier x version pairs of the file-name grammar convert both ways without loss; GetSelectedVersions reports the selections.',
+   note="Trusted: the harness's own semver comparison and cascade (~150 lines). A stale SelectedVersion between AddVersion and the next selection is documented behaviour and not asserted. Not covered: the download branch of GetFile, signature verification, resources with an empty version list, concurrency."),
 }
 
 NOT_BUILT_REASON = "check not built yet (work in progress; planned, see DESIGN.md section 6)"
